@@ -175,8 +175,9 @@ def live_runs(env: Env, out: Outcome, n: int, monitors: list[Callable[[Trace], l
     return traces
 
 
-def runner_corr(out: Outcome, traces: list[Trace], label: str = "engine-runner", lifecycle: bool = False) -> None:
-    """runner-LTS correspondence for traces produced outside `live_runs` (resumed runs: `rinit` without a start event)"""
+def runner_corr(out: Outcome, traces: list[Trace], label: str = "engine-runner", lifecycle: bool = False, rebuild: bool = False) -> None:
+    """runner-LTS correspondence for traces produced outside `live_runs` (resumed runs: `rinit` without a start event);
+    `rebuild`: also `rebuild_state_from_ticks` on each run's start state and tick log against the model's `rebuildAt`"""
     ops: list[str] = []
     exp: list[str] = []
     owner: list[int] = []
@@ -185,6 +186,10 @@ def runner_corr(out: Outcome, traces: list[Trace], label: str = "engine-runner",
             continue
         try:
             o, e = corr.runner_lines(tr, lifecycle=lifecycle)
+            if rebuild and o:
+                o2, e2 = corr.rebuild_lines(tr)
+                o, e = o + o2, e + e2
+                out.count(label + ":rebuild:" + ("none" if not o2 else "crash" if e2[0] == "crash" else "state"))
         except Exception as ex:
             out.divergences.append(Divergence(label, 0, "<encode>", "", f"{type(ex).__name__}: {ex}", {"spec": tr.spec}))
             continue
